@@ -353,14 +353,23 @@ def cases(tier, seed):
                    wrap(check_triplets, y, X, D2, exact, kg, ki, name))
 
 
+def single_thread():
+  """tiny problems: one OpenMP/BLAS thread (16 spinning threads make a 7-point neighbour query take 0.5 s here, and
+  oversubscribe a process pool).  The libraries must be loaded before threadpoolctl can reach them."""
+  os.environ.setdefault('OMP_NUM_THREADS', '1')
+  repo()
+  try:
+    import sklearn.neighbors  # noqa: F401  (loads the OpenMP runtime)
+    import threadpoolctl
+    return threadpoolctl.threadpool_limits(1)
+  except Exception:
+    return None
+
+
 def _work(args):
   """run the cases whose index is k modulo nproc"""
   tier, seed, k, nproc = args
-  try:
-    import threadpoolctl
-    threadpoolctl.threadpool_limits(1)      # tiny problems; avoids OpenMP oversubscription / fork trouble
-  except Exception:
-    pass
+  limiter = single_thread()
   del SKIPS[:]
   n = 0
   nontrivial = 0
@@ -444,11 +453,7 @@ def replay_clause(cid, fail, seed):
   """first failing case (label vectors of length <= 5) exercising the function named in cid, else any failing case"""
   target = cid.split('[')[0].split('/')[0]
   known_tags = (T_PAIRS, T_PAIRS_, T_WRAP, T_CHUNKS, T_TRIP, T_COMB)
-  try:
-    import threadpoolctl
-    threadpoolctl.threadpool_limits(1)
-  except Exception:
-    pass
+  limiter = single_thread()
   for only in ((target,) if target in known_tags else ()), None:
     if only == ():
       continue
